@@ -97,10 +97,10 @@ Theorem C03_stddev_partial : forall m cells, m <> MStar ->
 Proof. exact batch_stddev_sample. Qed.
 Print Assumptions C03_stddev_partial.
 
-(* FINDING: percentile(x * 2, 0.5) / nth_value(x + 1, k): the argument never reaches the aggregator *)
+(* HISTORY (F22, repaired): on the pinned commit percentile(x * 2, 0.5) / nth_value(x + 1, k) never saw their argument *)
 Theorem C03_two_arg_expr_arg_lost_refuted :
   exists cells,
-    batch (APercentile (1 # 2)) MExpr (sql_cells ShMul2 (APercentile (1 # 2)) cells) = Some (RNum 0) /\
+    batch (APercentile (1 # 2)) MExpr (sql_cells_asis ShMul2 (APercentile (1 # 2)) cells) = Some (RNum 0) /\
     spec_batch (APercentile (1 # 2)) MExpr (map (eval_arg ShMul2) cells) = Some (RNum 4).
 Proof. exact two_arg_expr_arg_lost_refuted. Qed.
 Print Assumptions C03_two_arg_expr_arg_lost_refuted.
